@@ -36,7 +36,7 @@ MINIMUMS = {
 }
 N = {"quick": 3200, "thorough": 64000}
 NREAL = {"quick": 2, "thorough": 10}
-TIMEOUT = {"quick": 900, "thorough": 10800}
+TIMEOUT = {"quick": 2400, "thorough": 14400}
 
 
 def check_log(ctx, w, route, log, images, expected_pre, init_expected=None, body_expected=False):
